@@ -1,6 +1,7 @@
 import PercevalModel.Proto
 import PercevalModel.Model.C11
 import PercevalModel.Model.C11Lists
+import PercevalModel.Model.C11Heur
 
 open Lean PM PM.Proto PM.C11
 
@@ -205,6 +206,11 @@ def doPerm (j : Json) : Except String Json := do
       ("inv", toJson (invertPerm σ))]
   | _ => throw "unknown fn"
 
+def optListJson (o : Option (List ℕ)) : Json :=
+  match o with
+  | some l => toJson l
+  | none => Json.null
+
 abbrev Cand := String × Option (List (Item ℚ))
 
 def candHit (after : List (Item ℚ)) (c : Cand) : Bool :=
@@ -241,6 +247,47 @@ def stepCands (fixedAdj : Bool) (m : ℕ) (display : Bool) (before : List (Item 
      ("ps/drop", simplifyStep fixedAdj m display true none before new)]
   | _ => [("other", simplifyStep fixedAdj m display false none before new)]
 
+/-- which paths of the heuristic one call of `_generate_compatible_perm` went through (model-side
+trace, recomputed with the model's own functions) -/
+def heurTrace (permList : List ℕ) (adj : List (List ℕ)) : List String :=
+  match workLists permList adj with
+  | none => ["heur-empty-group"]
+  | some (multi, third) =>
+    let m := permList.length
+    let multiKinds : List String :=
+      (if multi.any (fun g => !keptAdjacent permList g) then ["heur-first-step"] else []) ++
+      (if multi.any (fun g => keptAdjacent permList g) then ["heur-second-step"] else [])
+    let walk := fun (acc : Option Slots × List String) (modes : List ℕ) =>
+      match acc.1 with
+      | none => acc
+      | some perm =>
+        let init := outMin permList modes
+        let sn := searchEmptySpace perm modes.length init
+        let t1 := if sn.1 < init then ["heur-search-left"] else if sn.1 > init then ["heur-search-right"] else []
+        let t2 := if sn.2 < modes.length then
+            match updLoop modes.length (perm.length + 1)
+                { perm := perm, smin := sn.1, smax := sn.1 + sn.2, n := sn.2, jr := 0, jl := 1 } with
+            | some st =>
+              (if st.smin < sn.1 then ["heur-shift-left"] else []) ++
+              (if st.smax > sn.1 + sn.2 then ["heur-shift-right"] else []) ++
+              (if modes.length - sn.2 ≥ 2 then ["heur-shift-two-or-more"] else [])
+            | none => ["heur-loop-out-of-fuel"]
+          else []
+        (updatePerm perm init modes, acc.2 ++ t1 ++ t2)
+    let r1 := multi.foldl walk (some (List.replicate m none), multiKinds)
+    let r2 := third.foldl walk r1
+    let retry := match r2.1 with
+      | some rev2 => if rev2 == (List.range m).map some then ["heur-identity-retry"] else []
+      | none => []
+    (r2.2 ++ retry).eraseDups
+
+/-- the heuristic on its own: `{"permList": [...], "adj": [[...], ...]}` -/
+def doHeur (j : Json) : Except String Json := do
+  let permList ← natList (← j.getObjVal? "permList")
+  let adj ← (← arrOf j "adj").toList.mapM natList
+  return Json.mkObj [("out", optListJson (genCompatiblePerm permList adj)),
+    ("trace", toJson (heurTrace permList adj))]
+
 def doStep (j : Json) : Except String Json := do
   let m ← natOf j "m"
   let display ← boolOf j "display"
@@ -248,10 +295,39 @@ def doStep (j : Json) : Except String Json := do
   let before ← itemsOf j "before"
   let new ← itemOf (← j.getObjVal? "new")
   let after ← itemsOf j "after"
-  let cands := stepCands fixedAdj m display before new after
   let fused : Bool := match new.k with
     | .ps _ => decide (after.length ≤ before.length)
     | _ => false
+  let isPerm : Bool := match new.k with
+    | .perm _ => true
+    | _ => false
+  if fixedAdj && isPerm && permBranch true m before == PermBranch.nonSuccessive then
+    -- the repaired code with the exact model of the heuristic: ONE allowed result
+    let keep := simplifyStep true m display false none before new
+    let det := simplifyStepDet m display false before new
+    let ρ := heurChoice m before
+    let trace : List String := match lastPermIdx before with
+      | some i =>
+        match before[i]? with
+        | some ⟨pr0, _, .perm pσ⟩ =>
+          heurTrace (invertPerm (extendPerm pr0 pσ m)) (adjExact m (before.drop (i + 1)))
+        | _ => []
+      | none => []
+    let tag := if det == keep then "non-successive/kept" else "non-successive/unravelled"
+    if candHit after (tag, det) then
+      return Json.mkObj [("ok", Json.bool true), ("tag", Json.str tag), ("fused", Json.bool false),
+        ("exact", Json.bool true), ("heur", toJson trace), ("choice", optListJson ρ)]
+    else
+      -- not the model's result: say what the non-deterministic specification thinks of it
+      let cands := stepCands fixedAdj m display before new after
+      let specTag : String := match cands.find? (candHit after) with
+        | some c => c.1
+        | none => "not-allowed"
+      return Json.mkObj [("ok", Json.bool false), ("tags", toJson [tag]), ("spec", Json.str specTag),
+        ("choice", optListJson ρ), ("recovered", optListJson (recoverChoice m before after)),
+        ("cands", Json.arr [candJson (tag, det)].toArray)]
+  else
+  let cands := stepCands fixedAdj m display before new after
   match cands.find? (candHit after) with
   | some c => return Json.mkObj [("ok", Json.bool true), ("tag", Json.str c.1), ("fused", Json.bool fused)]
   | none =>
@@ -268,6 +344,7 @@ def handle (j : Json) : Json :=
     | "regroup" => doRegroup j
     | "perm" => doPerm j
     | "step" => doStep j
+    | "heur" => doHeur j
     | _ => throw "unknown op" : Except String Json) with
   | .ok r => r
   | .error e => errJson e
